@@ -299,7 +299,12 @@ def oracle(case, ires, sres):
         if returned != spk:
             return ("C13/parse_space_packets/chunked-differs-from-whole",
                     "chunked calls returned %d packets, one parse over the whole stream gives %d" % (len(returned), npk))
-        if qcat != srem:
+        # the queue must hold the unconsumed remainder; only leading octets that cannot start a
+        # registered packet id (junk) may be missing from it
+        drop = len(srem) - len(qcat)
+        tr = a[0]
+        raws = {raw_id(tr[i], tr[i + 1], tr[i + 2]) for i in range(0, len(tr) - 2, 3)}
+        if drop < 0 or qcat != srem[drop:] or any(((srem[i] * 256 + srem[i + 1]) & 0x1FFF) in raws for i in range(drop) if i + 1 < len(srem)):
             return ("C13/parse_space_packets/queue-tail", "queue after the last parse holds %d octets, the unconsumed remainder of the stream has %d" % (len(qcat), len(srem)))
     return None
 
